@@ -1,4 +1,5 @@
 import Juniper.Proofs.TreeCmp
+import Juniper.Proofs.TreeCalls
 /-!
 # In-order contents of the B-tree model and the append-style lemmas (C01–C03)
 
